@@ -130,6 +130,18 @@ def ret_fn(v, mode: str = 'x') -> List[types.PositiveInt]:
     return v
 
 
+@utype.parse(options=Options(addition=True))
+def kw_fn(a: int = 0, **kw: types.PositiveInt):
+    SEEN.append((a, None, (), None, kw))
+    return kw
+
+
+@utype.parse(options=Options(addition=True, collect_errors=True))
+def kw_fn_collect(a: int = 0, **kw: List[types.PositiveInt]):
+    SEEN.append((a, None, (), None, kw))
+    return kw
+
+
 @utype.parse(options=Options(collect_errors=True))
 def ret_fn_collect(v, mode: str = 'x') -> List[types.PositiveInt]:
     return v
@@ -160,7 +172,22 @@ def run_sync(aw):
            'with solver-chosen arguments: the body only ever sees conforming arguments and the caller only a conforming result; '
            'and functions returning their raw argument under -> List[PositiveInt] / -> PositiveInt, with and without collect_errors, sync and async')
 def function(V):
-    which = V.pick('which', ['args', 'return'])
+    which = V.pick('which', ['args', 'return', 'kwargs-with-addition-option'])
+    if which == 'kwargs-with-addition-option':
+        del SEEN[:]
+        lst = V.bool('list_valued')
+        v1, v2 = small(V, 'k1'), small(V, 'k2')
+        try:
+            (kw_fn_collect if lst else kw_fn)(1, p=v1, q=v2)
+        except Exception:  # noqa
+            V.cover('reject')
+            return
+        seen_kw = SEEN[0][4]
+        want = ('list', PI) if lst else PI
+        V.check(all(td.conforms(want, x) for x in seen_kw.values()), 'conform:var-kwargs',
+                lambda: 'kw_fn%s(1, p=%r, q=%r): body saw %r' % ('_collect' if lst else '', v1, v2, seen_kw))
+        V.cover('accept')
+        return
     if which == 'return':
         x = value(V)
         variant = V.pick('variant', ['plain', 'collect_errors', 'collect_errors-int', 'collect_errors-async'])
